@@ -217,6 +217,9 @@ class CasJsonDeserializer:
             if range_type.endswith("[]"):
                 element_type = range_type[:-2]
                 range_type = array_type_name_for_type(element_type)
+                if is_primitive_array(range_type):
+                    # The element type of a primitive array is implied by the array type
+                    element_type = None
             typesystem.create_feature(
                 new_type,
                 name=key,
